@@ -861,3 +861,90 @@ class WholeObjectDataClip(Contract):
 
 
 CONTRACTS = CONTRACTS + [WholeObjectDataClip]
+
+
+class GridClipDataKinds(Contract):
+    """Clips of cell-based objects that keep their geometry (block models, octrees: the copy holds
+    every cell, the values outside the selection are blanked) and of 2-D grids, for every kind of
+    cell data: inside the selection each cell keeps its value, outside it reads as the kind's
+    no-data (NaN, the integer code, and for booleans never as True where the source was False)."""
+    target = "geoh5py/objects/grid_object.py::GridObject.copy"
+    variant = "clip-by-data-kind"
+    symbolic = False
+    has_native = True
+    props = ("C13",)
+    bounded_scope = "block model (3x3x2), octree (4x4x4 base), 2-D grid (6x5) with float, integer, boolean, referenced and text cell data; 3 boxes (keeps part, keeps all, keeps a corner) x both inverse values (exhaustive)"
+
+    def native_cases(self, tier, rng):
+        for kind in ("blockmodel", "octree", "grid2d"):
+            for box in ("keeps-part", "keeps-all", "corner"):
+                for inverse in (False, True):
+                    yield {"kind": kind, "box": box, "inverse": inverse}
+
+    def native_check(self, case):
+        from contracts.copy_wf import EXTENTS, build
+        from geoh5py.workspace import Workspace
+
+        boxes = dict(EXTENTS, corner=np.array([[-5.0, -5.0], [12.0, 12.0]]))
+        box = boxes[case["box"]]
+        with Workspace() as ws:
+            obj = build(ws, case["kind"])
+            n = obj.n_cells
+            src = {
+                "f": np.arange(n, dtype=float) + 0.5,
+                "i": (np.arange(n) % 7 + 1).astype("int32"),
+                "b": (np.arange(n) % 3 == 0),
+                "r": (np.arange(n) % 2 + 1).astype("uint32"),
+                "t": np.array([f"c{k}" for k in range(n)]),
+            }
+            obj.add_data({"f": {"values": src["f"]}, "i": {"values": src["i"]}, "b": {"values": src["b"], "type": "boolean"},
+                          "r": {"values": src["r"], "type": "referenced", "value_map": {1: "A", 2: "B"}}, "t": {"values": src["t"], "type": "text"}})
+            cent = np.asarray(obj.centroids, dtype=float)
+            inside = np_in_box(cent, box, case["inverse"])
+            try:
+                out = obj.copy_from_extent(box, inverse=case["inverse"])
+            except Exception as exc:
+                return f"clipping a {case['kind']} holding float / integer / boolean / referenced / text cell data raised {type(exc).__name__}: {exc} ({case})"
+            if out is None:
+                return None if not inside.any() or case["inverse"] else f"{int(inside.sum())} cell centres qualify but nothing was copied ({case})"
+            oc = np.asarray(out.centroids, dtype=float)
+            # each cell of the copy is a cell of the source (same centre): find it
+            idx = []
+            for c in oc:
+                hit = np.where(np.all(np.isclose(cent, c, atol=1e-9), axis=1))[0]
+                if len(hit) != 1:
+                    return f"a cell of the clipped {case['kind']} sits at {c.tolist()}, which is no cell centre of the source ({case})"
+                idx.append(int(hit[0]))
+            idx = np.array(idx, dtype=int)
+            sel = inside[idx]
+            for name, vals in src.items():
+                got = out.get_data(name)
+                if not got or got[0].values is None:
+                    return f"data '{name}' is missing on the clipped {case['kind']} ({case})"
+                g = np.asarray(got[0].values)
+                if len(g) != len(idx):
+                    return f"data '{name}' has {len(g)} entries for {len(idx)} cells ({case})"
+                want = vals[idx]
+                if name == "t":
+                    if [str(x) for x in g[sel]] != [str(x) for x in want[sel]]:
+                        return f"text values inside the box changed ({case})"
+                    continue
+                if name == "b":
+                    gb = np.asarray(g).astype(float)
+                    if not np.array_equal(gb[sel] == 1, want[sel]):
+                        return f"boolean values inside the box changed ({case})"
+                    if np.any((gb[~sel] == 1) & ~want[~sel]):
+                        return f"boolean cells outside the box read True although the source holds False there: {np.asarray(g)[~sel].tolist()[:8]} ({case})"
+                    continue
+                gf, wf = np.asarray(g, dtype=float), np.asarray(want, dtype=float)
+                if not np.allclose(gf[sel], wf[sel]):
+                    return f"'{name}' values inside the box changed: {gf[sel].tolist()[:6]} vs {wf[sel].tolist()[:6]} ({case})"
+                blank = np.isnan(gf[~sel]) | (gf[~sel] == -2147483648.0) | (gf[~sel] == 0)
+                if name in ("f",) and not np.all(np.isnan(gf[~sel])):
+                    return f"float cells outside the box are not blanked: {gf[~sel].tolist()[:6]} ({case})"
+                if name in ("i", "r") and not np.all(blank):
+                    return f"'{name}' cells outside the box keep values {gf[~sel].tolist()[:6]} ({case})"
+        return None
+
+
+CONTRACTS = CONTRACTS + [GridClipDataKinds]
